@@ -264,7 +264,7 @@ def check_suspension(ctx, f, s_p, qmap, admissibility_only=False):
                 if x[0] == "cmp" and x[1] == "<":
                     rhs = x[3]
                     rdefs = [n for n in own_nodes(f.node) if isinstance(n, ast.Assign) and any(norm.is_name(t, rhs) for t in n.targets)]
-                    if rhs == f"len({qry})" or (len(rdefs) == 1 and norm.U(rdefs[0].value) == f"len({qry})"):
+                    if rhs == f"len({qry})" or (len(rdefs) == 1 and norm.U(rdefs[0].value) == f"len({qry})" and _len_still_current(f, g, rdefs[0], a, qry)):
                         cnt = x[2]
                         if cnt == f"len({L})":
                             # the number selected so far is the length of the selection list itself
@@ -348,6 +348,32 @@ def check_suspension(ctx, f, s_p, qmap, admissibility_only=False):
            okq, f, pops[0] if pops else f.node, construct="re-queue of suspended work", detail=d)
 
 
+def _len_still_current(f, g, d: ast.stmt, use: ast.AST, qry: str) -> bool:
+    """`n = len(<queue>)` taken at d still is the length of the queue at `use`: no statement that can add to / remove from that
+    queue (directly, or through a loop variable that ranges over a list of queues containing it) lies on a way from d to use."""
+    aliases = {qry}
+    lists = set()
+    for n in own_nodes(f.node):
+        if isinstance(n, ast.Assign) and len(n.targets) == 1 and isinstance(n.targets[0], ast.Name) and isinstance(n.value, (ast.List, ast.Tuple)) \
+                and any(norm.U(e) == qry for e in n.value.elts):
+            lists.add(n.targets[0].id)
+    for n in own_nodes(f.node):
+        if isinstance(n, ast.For) and isinstance(n.target, ast.Name) and ((isinstance(n.iter, ast.Name) and n.iter.id in lists)
+                                                                        or (isinstance(n.iter, (ast.List, ast.Tuple)) and any(norm.U(e) == qry for e in n.iter.elts))):
+            aliases.add(n.target.id)
+        if isinstance(n, ast.Assign) and len(n.targets) == 1 and isinstance(n.targets[0], ast.Name) and norm.U(n.value) == qry:
+            aliases.add(n.targets[0].id)
+    d_id, u_id = g.node_of(d).id, g.node_of(use).id
+    for c in own_nodes(f.node):
+        if isinstance(c, ast.Call) and isinstance(c.func, ast.Attribute) and c.func.attr in ("append", "remove", "pop", "insert", "extend", "clear") and norm.U(c.func.value) in aliases:
+            m = g.node_of(c).id
+            if m in (d_id, u_id):
+                continue
+            if g.path_avoiding(d_id, {m}, {d_id}) is not None and g.path_avoiding(m, {u_id}, {d_id}) is not None:
+                return False
+    return True
+
+
 def _container_source(f, g, at, cv: str, s_p: str) -> bool:
     """cv is bound by next(iters[..]) where iters = [iter(pools[i].active_containers) for i in range(num_pools)], or by a for loop over active_containers."""
     defs = [n for n in own_nodes(f.node) if isinstance(n, ast.Assign) and any(norm.is_name(t, cv) for t in n.targets)]
@@ -397,6 +423,27 @@ def check_priority_pool_order(ctx):
                 ok = order == ["QUERY", "INTERACTIVE"]
                 d = f"pool 0 drains {order}"
     ctx.ob(2, "K5", "within the shared pool of priority-pool, query work is drained before interactive work", ok, f, tabs[0] if tabs else f.node, construct="pool_queues[0] order", detail=d)
+    # work conservation across pools: the state of one pool never keeps another pool's queues from being served in the round
+    sites = [c for fn_, c in sched.assignment_sites(P, f) if same_fn(fn_, f)]
+    pls = []
+    for c in sites:
+        lp = enclosing_for(c, f.node)
+        while lp is not None:
+            if isinstance(lp.iter, ast.Call) and norm.is_name(lp.iter.func, "range") and norm.U(lp.iter) == f"range({s_p}.executor.num_pools)" and not any(lp is x for x in pls):
+                pls.append(lp)
+            lp = enclosing_for(lp, f.node)
+    for pl in pls:
+        hid = g.node_of(pl).id
+        inside = {g.node_of(st).id for b in pl.body for st in ast.walk(b) if isinstance(st, ast.stmt) and id(st) in g.stmt_node}
+        # leaving the pool loop other than by exhausting it: an edge from a node inside the body to a node outside that is not the header
+        early = None
+        for i in inside:
+            for t, lab in g.nodes[i].succ:
+                if lab != "exc" and t != hid and t not in inside and t != g.raise_.id:
+                    early = g.nodes[i]
+        ctx.ob(4, "K3", "[priority-pool] every pool's queues are served in every round: the per-pool loop is left only when all pools were visited "
+               "(a depleted pool ends the work on that pool, not the round)", early is None, f, early.ast if early is not None and early.ast is not None else pl,
+               construct="pool loop without early exit", detail="no break / return leaves the pool loop" if early is None else f"L{early.line} leaves the loop before all pools were visited")
 
 
 def run(ctx):
